@@ -223,15 +223,10 @@ Print Assumptions C17_two_valued.
    both get_build_status look at the cache again when the host's answer arrives.  With them, once a (commit, key)
    cell is SUCCESSFUL no interleaving of events, check_suite writes, polls and arbitrarily late host answers
    changes it, and every poll that answers, answers SUCCESSFUL. *)
-Require Import BertE.Model.IoCache BertE.Proofs.IoCacheProofs.
-
-Definition observed_guards_github : guards :=
-  {| g_suite := inflight_guard_check_suite; g_poll := inflight_guard_poll_github |}.
-Definition observed_guards_bitbucket : guards :=
-  {| g_suite := inflight_guard_check_suite; g_poll := inflight_guard_poll_bitbucket |}.
+Require Import BertE.Model.IoCache BertE.Proofs.IoCacheProofs BertE.Proofs.C17IoProofs.
 
 Theorem C17_observed_guards : observed_guards_github = all_guarded /\ observed_guards_bitbucket = all_guarded.
-Proof. split; reflexivity. Qed.
+Proof. exact observed_guards_all. Qed.
 Print Assumptions C17_observed_guards.
 
 Theorem C17_sticky_interleaved : forall l,
@@ -239,7 +234,5 @@ Theorem C17_sticky_interleaved : forall l,
    forall a, In (Some a) (snd (io_run observed_guards_github green l)) -> a = "SUCCESSFUL"%string) /\
   (fst (io_run observed_guards_bitbucket green l) = green /\
    forall a, In (Some a) (snd (io_run observed_guards_bitbucket green l)) -> a = "SUCCESSFUL"%string).
-Proof.
-  intros l. destruct C17_observed_guards as [-> ->]. split; exact (io_green_is_sticky l).
-Qed.
+Proof. exact sticky_interleaved_observed. Qed.
 Print Assumptions C17_sticky_interleaved.
